@@ -195,3 +195,11 @@ def sat_nonne(checks, n, e):
     if n <= 0:
         return True
     return (op_of(checks[n - 1]) is operator.ne or holds_e(e, checks[n - 1])) and sat_nonne(checks, n - 1, e)
+
+
+@REG.spec([SeqIS, SeqIS, Int, Int], Bool)
+def eq_range(a, b, k, n):
+    """a[j] == b[j] for k <= j < n"""
+    if k >= n:
+        return True
+    return a[k] == b[k] and eq_range(a, b, k + 1, n)
